@@ -146,10 +146,90 @@ func addAddrCase(c *core.Ctx, fn string, in []byte, res textRes, tc *textCase) b
 		if st[1] != "" {
 			c.Nontrivial("contact|" + string(in))
 		}
+	case "sp_header":
+		c.AddCase(fmt.Sprintf("CPassSock %s %s %s", bytesTerm(in), st[0], st[1]), tc)
+		if st[0] == "0" {
+			c.Nontrivial("passsock|" + string(in))
+		}
+	case "sp_header_write":
+		if len(st) < 1 {
+			return false
+		}
+		c.AddCase(fmt.Sprintf("CPassSockWrite %s", bt(st[0])), tc)
 	default:
 		return false
 	}
 	return true
+}
+
+// genPassSock: the shared-port pass-socket header: flag x declared length x supplied payload x
+// command, every truncation of the valid header, trailing bytes, mutations.
+func genPassSock(c *core.Ctx) {
+	hdr := func(flag byte, length uint32, payload []byte) []byte {
+		b := []byte{flag, 0, 0, 0, 0}
+		binary.BigEndian.PutUint32(b[1:], length)
+		return append(b, payload...)
+	}
+	cmdBytes := func(v uint64) []byte {
+		b := make([]byte, 8)
+		binary.BigEndian.PutUint64(b, v)
+		return b
+	}
+	valid := hdr(1, 8, cmdBytes(76))
+	for i := 0; i <= len(valid); i++ {
+		addTextCase(c, "sp_header", valid[:i])
+	}
+	addTextCase(c, "sp_header_write", nil)
+	addTextCase(c, "sp_header_write", []byte("trailing bytes"))
+	addTextCase(c, "sp_header_write", valid)
+	for _, flag := range []byte{0, 1, 2, 255} {
+		for _, cmd := range []uint64{76, 75, 77, 0, 76 + 1<<32, 76 + 1<<63, 1<<64 - 1, 76 << 8} {
+			addTextCase(c, "sp_header", hdr(flag, 8, cmdBytes(cmd)))
+			addTextCase(c, "sp_header", append(hdr(flag, 8, cmdBytes(cmd)), 1, 2, 3))
+		}
+	}
+	lengths := []uint32{0, 1, 7, 8, 9, 16, 63, 64, 65, 255, 256, 65536, 1 << 24, 1<<31 - 1, 1 << 31, 1<<32 - 1, 8 << 8, 8 << 24}
+	for li, l := range lengths {
+		for si, supplied := range []int{0, 1, 7, 8, 9, 63, 64, 65, 100} {
+			if c.Quick() && (li+si)%2 != 0 && l != 8 && l != 64 && l != 65 {
+				continue
+			}
+			p := make([]byte, supplied)
+			for i := range p {
+				p[i] = byte(c.Rng.Intn(256))
+			}
+			if supplied >= 8 {
+				copy(p[supplied-8:], cmdBytes(76))
+			}
+			addTextCase(c, "sp_header", hdr(1, l, p))
+			if supplied >= 8 {
+				copy(p, cmdBytes(76))
+				addTextCase(c, "sp_header", hdr(1, l, p))
+			}
+		}
+	}
+	nMut := 60
+	if !c.Quick() {
+		nMut = 1500
+	}
+	for i := 0; i < nMut; i++ {
+		x := append([]byte(nil), valid...)
+		for k := 0; k < 1+c.Rng.Intn(3); k++ {
+			switch c.Rng.Intn(4) {
+			case 0:
+				x[c.Rng.Intn(len(x))] = byte(c.Rng.Intn(256))
+			case 1:
+				x[c.Rng.Intn(len(x))] ^= 1 << uint(c.Rng.Intn(8))
+			case 2:
+				x = x[:c.Rng.Intn(len(x))+1]
+			default:
+				x = append(x, byte(c.Rng.Intn(256)))
+			}
+		}
+		addTextCase(c, "sp_header", x)
+	}
+	addTextCase(c, "sp_header", append(hdr(1, 64, nil), make([]byte, 20000)...))
+	addTextCase(c, "sp_header", append(hdr(1, 1<<32-1, nil), make([]byte, 20000)...))
 }
 
 // genAddr: structured inputs for the Model/Addr.v decoders (every decision of each function),
